@@ -42,14 +42,14 @@ var fleetDBIs = []string{"d0", "d1", "d2"}
 var fleetKeys = [][]byte{[]byte("a"), []byte("b"), []byte("ab"), {0}, {0xff, 0x00}, []byte("key-5"), []byte("k6"), make([]byte, 511)}
 
 type histStats struct {
-	writers     map[string]map[int]bool // dbi/key -> set of instances that wrote
-	mergeDir    map[[2]int]bool
-	tieConflict bool
-	delVsPut    bool
-	nonNewest   bool
-	ts0         bool
-	emptyVal    bool
-	deletes     int
+	writers         map[string]map[int]bool // dbi/key -> set of instances that wrote
+	mergeDir        map[[2]int]bool
+	tieConflict     bool
+	delVsPut        bool
+	nonNewest       bool
+	ts0             bool
+	emptyVal        bool
+	deletes         int
 	delMetOlderLive bool
 }
 
